@@ -354,13 +354,19 @@ func replayTree(c *runlib.Ctx, w witness) {
 }
 
 // enumTrees enumerates labelled derivation trees of depth <= 3 with <= 2
-// children per node: trees with at most maxEdges edges get every attribute
-// count 0..3 on every edge, under every record template and both derivation
-// orders; the larger trees get the counts 0..bigLabels-1.
+// children per node (183 shapes, up to 14 edges): trees with at most maxEdges
+// edges (6 quick, 8 thorough) get every attribute count 0..3 on every edge,
+// under every record template and both derivation orders; the larger trees get
+// the counts 0..1 under every variant, and in the thorough tier those of up to
+// 12 edges also the counts 0..2 under one variant.
 func enumTrees(c *runlib.Ctx, sh func() *enum.Sharder) {
 	te := newTreeEnv()
 	all := shapes(3)
 	maxEdges := runlib.Pick(c, 6, 8)
+
+	// Thorough: trees of maxEdges+1..heavyMaxEdges edges also get the counts
+	// 0..2 under one (template, order) variant.
+	const heavyMaxEdges = 12
 	type variant struct{ tpl, order int }
 	var everyVariant []variant
 	for tpl := range recTemplates {
@@ -385,7 +391,7 @@ func enumTrees(c *runlib.Ctx, sh func() *enum.Sharder) {
 		switch {
 		case small:
 			passes = []pass{{"trees-small-counts-0..3", 4, everyVariant}}
-		case c.Quick():
+		case c.Quick() || edges > heavyMaxEdges:
 			passes = []pass{{"trees-large-counts-0..1", 2, everyVariant}}
 		default:
 			heavy := []variant{{1, 0}}
@@ -432,5 +438,98 @@ func enumTrees(c *runlib.Ctx, sh func() *enum.Sharder) {
 				enum.Product(dims, one)
 			}
 		}
+	}
+}
+
+// enumSpines enumerates chains of WithAttrs derivations of depth 0..8 (the
+// spine; h0 is the root) with two or three siblings derived from the last
+// spine handler, every sibling getting 0..3 attributes.  evalTree handles the
+// record through the first sibling again after the later siblings exist, and
+// through every sibling, the parent and the whole spine after all derivations.
+// Whether a parent's slice has spare capacity depends on the spine's depth and
+// attribute counts (append growth), so every depth is covered: quick takes
+// uniform spines of 1, 2 or 3 attributes per derivation, thorough every spine
+// over {1,2,3} up to depth 6 and over {1,2} at depths 7 and 8.
+func enumSpines(c *runlib.Ctx, sh func() *enum.Sharder) {
+	te := newTreeEnv()
+	s := sh()
+	const maxDepth = 8
+
+	spines := func(d int, f func(labels []int)) {
+		if d == 0 {
+			f(nil)
+
+			return
+		}
+
+		if c.Quick() {
+			for n := 1; n <= 3; n++ {
+				f(slices.Repeat([]int{n}, d))
+			}
+
+			return
+		}
+
+		base := 3
+		if d > 6 {
+			base = 2
+		}
+
+		dims := slices.Repeat([]int{base}, d)
+		enum.Product(dims, func(v []int) {
+			l := make([]int, d)
+			for i := range v {
+				l[i] = v[i] + 1
+			}
+
+			f(l)
+		})
+		if d > 6 {
+			f(slices.Repeat([]int{3}, d))
+		}
+	}
+
+	for d := 0; d <= maxDepth; d++ {
+		spines(d, func(spine []int) {
+			for k := 2; k <= 3; k++ {
+				enum.Product(slices.Repeat([]int{4}, k), func(sib []int) {
+					// Spine nodes "0", "00", ...; the siblings are the children
+					// of the last spine node.
+					nodes := []tnode{{pos: "", parent: -1}}
+					labels := []int{0}
+					for i := 0; i < d; i++ {
+						nodes[i].kids = []int{i + 1}
+						nodes = append(nodes, tnode{pos: strings.Repeat("0", i+1), parent: i})
+						labels = append(labels, spine[i])
+					}
+
+					for j := 0; j < k; j++ {
+						nodes[d].kids = append(nodes[d].kids, len(nodes))
+						nodes = append(nodes, tnode{pos: nodes[d].pos + strconv.Itoa(j), parent: d})
+						labels = append(labels, sib[j])
+					}
+
+					for tpl := range recTemplates {
+						for order := 0; order <= 1; order++ {
+							if !s.Mine() {
+								continue
+							}
+
+							c.InFlight("spine " + treeString(nodes, labels))
+							runTree(c, te, "spine-siblings", nodes, labels, tpl, order)
+
+							// A spine of depth <= 2 with two siblings is also one
+							// of the depth<=3 trees and is counted there.
+							if d > 2 || k > 2 {
+								c.NontrivialKey(fmt.Sprintf("spine|%s|%d|%d", treeString(nodes, labels), tpl, order))
+							}
+							c.SampleEvery(50_021, func() any {
+								return treeWitness("spine-siblings", nodes, labels, tpl, order)
+							})
+						}
+					}
+				})
+			}
+		})
 	}
 }
